@@ -9,7 +9,7 @@ import vlib, gen, static_pipeline as sp, map_pipeline as mp
 
 # (a directory name with characters that mean something to String.prototype.replace: paths are data)
 # and a file directly under the root directory (containers run /server.js)
-FILES = {"f1": "/one.js", "f2": "/w/l$&ib $'x/tw\u00f3.js"}
+FILES = {"f1": "/one.js", "f2": "/w/l$&ib $'x/tw%41\u00f3.js"}
 CFG = dict(sp.FULL_CFG, chainSourceMap=True)
 
 
